@@ -69,6 +69,8 @@ def gen_routing(seed, opts=None):
             a = _pick(rng, [(3, ['simple', 'good', 'pw']), (1, ['simple', 'bad', 'pw']), (2, ['bearer', 'tok-good']),
                             (1, ['bearer', 'tok-bad'])])
         order = rng.sample(['route', 'auth', 'tag', 'extra'], 4)
+        if rng.random() < 0.3:
+            order.insert(rng.randint(0, 4), 'empty')  # a legal entry whose content has length 0, anywhere
         reqs.append({'id': i, 'type': t, 'route': route, 'auth': a, 'order': order, 'at': round(rng.uniform(0, 0.01), 4),
                      'dlen': rng.randint(8, 200)})
     plan['requests'] = reqs
@@ -282,6 +284,8 @@ def _run(world, plan):
                 items.append(metadata_item(str(rq['id']).encode(), TAG_MIME))
             elif what == 'extra' and rq['id'] % 2:
                 items.append(metadata_item(b'{"k": 1}', WellKnownMimeTypes.APPLICATION_JSON))
+            elif what == 'empty':
+                items.append(metadata_item(b'', WellKnownMimeTypes.TEXT_PLAIN if rq['id'] % 3 else b'x-empty/none'))
         return composite(*items)
 
     def issue(rq):
